@@ -48,7 +48,7 @@ class SimSocket:
             t.tcp_closed()
 
 
-def install(target, budget=60_000):
+def install(target, budget=20_000):
     """Route all driver traffic of this process to `target`."""
     import pycomm3.cip_driver as cd
     CURRENT["target"] = target
